@@ -162,8 +162,10 @@ def parse_conf_output(out):
 
 
 ALT = "ts-asan-altdefaults"
-ALT_CONFIGURE = ["--with-message-format=ALT %{cmdline} u=%{uid} [%{tty}]", "--with-default-output=file:/nonexistent/alt-default.log",
-                 "--with-syslog-facility=LOCAL2", "--with-syslog-level=DEBUG", "--with-filter-chain=exclude_uid:77;noop", "--enable-error-logging"]
+ALT_DEFAULTS = {"message_format": b"ALT %{cmdline} u=%{uid} [%{tty}] %{datetime:%H:%M}", "output": b"file:/nonexistent/alt-%{datetime:%Y-%m}-%{snoopy_literal:a:b}.log",
+                "syslog_facility": b"LOCAL2", "syslog_level": b"DEBUG", "filter_chain": b"exclude_uid:77;noop", "error_logging": b"yes"}
+ALT_CONFIGURE = ["--with-message-format=" + ALT_DEFAULTS["message_format"].decode(), "--with-default-output=" + ALT_DEFAULTS["output"].decode(),
+                 "--with-syslog-facility=LOCAL2", "--with-syslog-level=DEBUG", "--with-filter-chain=" + ALT_DEFAULTS["filter_chain"].decode(), "--enable-error-logging"]
 DEFAULTS_OF = {}
 
 
@@ -253,7 +255,8 @@ def main():
     b, balt = ctx.run.build_many(["ts-asan", {"variant": "ts-asan", "name": ALT, "extra_configure": ALT_CONFIGURE}])
     cfgh = open(os.path.join(b["src"], "config.h")).read()
     DEFAULT_FORMAT = re.search(r'#define SNOOPY_CONF_MESSAGE_FORMAT "(.*)"', cfgh).group(1).encode()
-    DEFAULTS_OF[ALT] = model.defaults_from_config_h(open(os.path.join(balt["src"], "config.h")).read())
+    # (expectations come from the configure arguments themselves, not from what configure made of them)
+    DEFAULTS_OF[ALT] = dict(model.DEFAULTS, **ALT_DEFAULTS)
     ctx.extra["alternative_build_defaults"] = {k: v.decode("latin-1") for k, v in DEFAULTS_OF[ALT].items()}
     ctx.assumptions = ["physical lines longer than 1022 bytes and NUL bytes are outside the modelled grammar (C02 covers them)",
                        "where a duplicate's last value is garbage, the union {default} is required for syslog names; for lengths "
